@@ -996,7 +996,20 @@ def run_dupkex(case) -> CaseResult:
     sent: List[bytes] = []
     orig_send = ref.send
 
+    mid = case.get('when') == 'mid'
+    marks: List[int] = []
+
     def recording_send(payload, *args, **kw):
+        if mid and payload[0] == 32 and not marks:
+            # group exchange: the group was requested once and has been
+            # sent; a second request arrives where only INIT is called for
+            req = [p for p in sent if p[0] == 34][0]
+            dup = req if case['which'] == 0 else \
+                bytes([30]) + req[5:9]
+            marks.append(len(ref.packets))
+            marks.append(dup[0])
+            orig_send(dup, *args, **kw)
+
         sent.append(bytes(payload))
         return orig_send(payload, *args, **kw)
 
@@ -1008,6 +1021,32 @@ def run_dupkex(case) -> CaseResult:
     try:
         link.start()
         link.pump()
+
+        if mid:
+            if not marks:
+                raise HarnessError('C06 dupkex: no group exchange INIT seen')
+
+            labels |= {'when:mid', 'dup-type:%d-mid' % marks[1]}
+            answers = [p_['type'] for p_ in ref.packets[marks[0]:]]
+            dead = ref.disconnected is not None or link.rp.eof or \
+                link.rp.lost or link.conn.is_closed()
+
+            if any(30 <= t <= 49 or t == 21 for t in answers) or not dead:
+                raise Violation(
+                    'injected-message-took-effect',
+                    '%s, strict=%s: a second group exchange request (type '
+                    '%d) arriving after the server had sent its group and '
+                    'before the client\'s INIT was answered with packet '
+                    'types %r; connection ended: %s' %
+                    (case['kex'], case['strict'], marks[1], answers, dead),
+                    'dupkex:group-requested-twice')
+
+            if any(e[0] in ('auth_completed', 'session_requested')
+                   for e in log):
+                raise Violation('injected-message-took-effect',
+                                'callbacks %r' % log[:3], 'dupkex:callbacks')
+
+            return CaseResult(sorted(labels), True)
 
         if not getattr(ref, 'newkeys_held', False):
             raise HarnessError('C06 dupkex: exchange did not reach the '
@@ -1056,10 +1095,19 @@ def dupkex_cases(tier: str):
             for which in (0, 1):
                 yield {'kex': kex, 'strict': strict, 'which': which}
 
+    for kex in ('diffie-hellman-group-exchange-sha256',
+                'diffie-hellman-group-exchange-sha1'):
+        for strict in (True, False):
+            for which in (0, 1):
+                yield {'kex': kex, 'strict': strict, 'which': which,
+                       'when': 'mid'}
+
 
 FAMILIES = [
     Family('dupkex', run_dupkex, enumerate=dupkex_cases, exhaustive=True,
-           required={'all': ['strict', 'non-strict', 'dup-type:30']},
+           required={'all': ['strict', 'non-strict', 'dup-type:30',
+                             'when:mid', 'dup-type:34-mid',
+                             'dup-type:30-mid']},
            case_timeout=120),
     Family('grid', run_grid, enumerate=grid, exhaustive=True,
            required={'all': _required()}, case_timeout=120),
